@@ -4,6 +4,7 @@ import (
 	"fmt"
 	"sort"
 	"strings"
+	"time"
 )
 
 // c20Ctl is the reference model of one hosted controller object.
@@ -144,9 +145,26 @@ func C20Scenario() *Scenario {
 						c = &c20Ctl{name: name, kind: []string{"composite", "decorator"}[t.Pick(2, "kind")]}
 						ctls[name] = c
 					}
-					ops := []string{"create-or-update", "create-or-update", "noop-update", "delete"}
+					ops := []string{"create-or-update", "create-or-update", "noop-update", "delete", "recreate-unchanged"}
 					op := ops[t.Pick(len(ops), "op")]
+					if t.Pick(5, "pause") == 4 {
+						// the process has been up for a while (longer than any 20-minute cache in it)
+						for waited := time.Duration(0); waited < 25*time.Minute; waited += time.Minute {
+							w.Sleep(time.Minute)
+							for i := 0; i < 50 && !w.Idle(); i++ {
+								w.StepOnce(FairPolicy)
+							}
+						}
+						opStep = w.step
+						w.Probe("c20:op-after-25-minutes")
+					}
 					switch {
+					case op == "recreate-unchanged" && !c.exists && c.spec != nil:
+						// the same controller object comes back unchanged (same hooks, same URLs)
+						mustCreate(w.Store, resOf(c), "", c.spec, "config")
+						c.exists = true
+						opName = fmt.Sprintf("re-create %s/%s v%d unchanged (%s)", c.kind, c.name, c.ver, c.why)
+						w.Probe("c20:recreated-unchanged")
 					case op == "delete" && c.exists:
 						w.Store.Delete(resOf(c), "", c.name, DeleteOpts{}, "config")
 						c.exists = false
